@@ -475,8 +475,8 @@ def gen_spec(rng, profile=None):
 
 def soil_cn(soil_spec):
     from .domain import SOIL_CN
+    if soil_spec.get("kwargs", {}).get("calc_cn") == 1:
+        return 77  # upper bound of the Ksat-derived values (with calc_cn the model ignores the stated curve number)
     if "cn" in soil_spec.get("kwargs", {}) and soil_spec["type"] == "custom":
         return soil_spec["kwargs"]["cn"]
-    if soil_spec.get("kwargs", {}).get("calc_cn") == 1:
-        return 77  # upper bound of the Ksat-derived values
     return SOIL_CN.get(soil_spec["type"], 61)
